@@ -79,6 +79,7 @@ type c17Cfg struct {
 var c17V6 = map[string]string{
 	"10.0.0.1/32": "fd00::1/128", "10.0.0.2/32": "fd00::2/128", "10.0.1.0/24": "fd00:1::/64", "10.0.0.9/32": "fd00::9/128",
 	"10.0.1.1": "fd00:1::1", "10.0.1.7": "fd00:1::7",
+	"10.0.2.0/24": "fd00:2::/64", "10.0.3.1": "fd00:3::1", "10.0.3.2": "fd00:3::2",
 	"10.9.8.0/24": "fd09:8::/64", "10.9.9.0/24": "fd09:9::/64", "10.8.0.0/16": "fd08::/32",
 	"192.168.0.0/24": "fd92::/64", "0.0.0.0/0": "::/0", "172.16.0.0/16": "fd72::/32",
 	"192.168.0.1": "fd92::1", "192.168.0.8": "fd92::8", "192.168.0.9": "fd92::9", "192.168.0.66": "fd92::66",
@@ -108,6 +109,9 @@ func (s *c17State) Z() string {
 }
 
 func c17Split(entry string) (string, int) {
+	if i := strings.Index(entry, "#"); i >= 0 {
+		entry = entry[:i]
+	}
 	if i := strings.Index(entry, "@"); i >= 0 {
 		var p int
 		_, _ = fmt.Sscanf(entry[i+1:], "%d", &p)
@@ -135,7 +139,18 @@ const (
 	c17Y = "10.0.1.0/24"
 )
 
-var c17Classes = map[string]RouteClass{"L": RouteClassLocalWorkload, "V": RouteClassVXLANTunnel, "B": RouteClassBlackholeVXLAN}
+var c17Classes = map[string]RouteClass{"L": RouteClassLocalWorkload, "V": RouteClassVXLANTunnel, "B": RouteClassBlackholeVXLAN, "M": RouteClassNoEncap}
+
+// multi-path variants (class M, no output interface): next hops as (gateway, interface); M1 and M2
+// differ only in the interface of the first hop
+const c17W = "10.0.2.0/24"
+
+var c17MP = map[string][][2]string{
+	"M1": {{"10.0.3.1", "cali1"}, {"10.0.3.2", "cali2"}},
+	"M2": {{"10.0.3.1", "cali2"}, {"10.0.3.2", "cali2"}},
+}
+
+func (s *c17State) W(variant string) string { return s.a(c17W) + "#" + variant }
 
 type c17State struct {
 	cfg  c17Cfg
@@ -316,9 +331,13 @@ func (n *c17NL) RouteReplace(r *netlink.Route) error {
 		// kernel rule the mock does not have: the output interface must exist and be up
 		idxs := []int{r.LinkIndex}
 		for _, nh := range r.MultiPath {
-			idxs = append(idxs, nh.LinkIndex)
+			idxs = append(idxs, -nh.LinkIndex) // negative: next hop of a multi-path route
 		}
 		for _, idx := range idxs {
+			hop := idx < 0
+			if hop {
+				idx = -idx
+			}
 			if idx <= 1 {
 				continue
 			}
@@ -331,7 +350,9 @@ func (n *c17NL) RouteReplace(r *netlink.Route) error {
 			if l == nil {
 				return unix.ENODEV
 			}
-			if l.LinkAttrs.RawFlags&syscall.IFF_UP == 0 {
+			if l.LinkAttrs.RawFlags&syscall.IFF_UP == 0 && !hop {
+				// (for next hops of a multi-path route the mock's permissive behaviour is kept: the
+				// code under test deliberately programs such a route as long as ONE hop is up)
 				return syscall.ENETDOWN
 			}
 		}
@@ -389,6 +410,12 @@ func (s *c17State) target(class, entry string) Target {
 	case "B":
 		t.Type = TargetTypeBlackhole
 		t.Protocol = 80
+	case "M":
+		t.Type = TargetTypeGlobalUnicast
+		t.Protocol = 80
+		for _, h := range c17MP[entry[strings.Index(entry, "#")+1:]] {
+			t.MultiPath = append(t.MultiPath, NextHop{Gw: ip.FromString(s.a(h[0])), IfaceName: h[1]})
+		}
 	}
 	return t
 }
@@ -409,6 +436,7 @@ func (s *c17State) resolved() map[string][]string {
 		class RouteClass
 		idx   int
 		cname string
+		entry string
 	}
 	cands := map[string][]cand{}
 	for cname, byIf := range s.want {
@@ -425,7 +453,21 @@ func (s *c17State) resolved() map[string][]string {
 				idx = s.link(ifc).LinkAttrs.Index
 			}
 			for entry := range cidrs {
-				cands[s.normKey(entry)] = append(cands[s.normKey(entry)], cand{class, idx, cname})
+				if cname == "M" {
+					// a multi-path route needs all its next-hop interfaces to exist and one to be up;
+					// it carries no output interface of its own
+					all, some := true, false
+					for _, h := range c17MP[entry[strings.Index(entry, "#")+1:]] {
+						all = all && s.link(h[1]) != nil
+						some = some || s.operUp(h[1])
+					}
+					if !all || !some {
+						continue
+					}
+					cands[s.normKey(entry)] = append(cands[s.normKey(entry)], cand{class, 0, cname, entry})
+					continue
+				}
+				cands[s.normKey(entry)] = append(cands[s.normKey(entry)], cand{class, idx, cname, entry})
 			}
 		}
 	}
@@ -441,7 +483,7 @@ func (s *c17State) resolved() map[string][]string {
 			if b.class != best {
 				continue
 			}
-			t := s.target(b.cname, cidr)
+			t := s.target(b.cname, b.entry)
 			proto := netlink.RouteProtocol(unix.RTPROT_BOOT)
 			if t.Protocol != 0 {
 				proto = t.Protocol
@@ -450,7 +492,14 @@ func (s *c17State) resolved() map[string][]string {
 			if t.GW != nil {
 				gw = t.GW.String()
 			}
-			out[cidr] = append(out[cidr], fmt.Sprintf("dev=%d gw=%s type=%d scope=%d proto=%d onlink=%v", b.idx, gw, t.RouteType(), t.RouteScope(), proto, t.Flags()&unix.RTNH_F_ONLINK != 0))
+			r := fmt.Sprintf("dev=%d gw=%s type=%d scope=%d proto=%d onlink=%v", b.idx, gw, t.RouteType(), t.RouteScope(), proto, t.Flags()&unix.RTNH_F_ONLINK != 0)
+			if len(t.MultiPath) > 0 {
+				r += " mp="
+				for _, h := range t.MultiPath {
+					r += fmt.Sprintf("%d/%s,", s.link(h.IfaceName).LinkAttrs.Index, h.Gw)
+				}
+			}
+			out[cidr] = append(out[cidr], r)
 		}
 	}
 	return out
@@ -474,7 +523,14 @@ func c17RenderRoute(r netlink.Route) string {
 	if r.Gw != nil {
 		gw = r.Gw.String()
 	}
-	return fmt.Sprintf("dev=%d gw=%s type=%d scope=%d proto=%d onlink=%v", r.LinkIndex, gw, r.Type, r.Scope, r.Protocol, r.Flags&unix.RTNH_F_ONLINK != 0)
+	out := fmt.Sprintf("dev=%d gw=%s type=%d scope=%d proto=%d onlink=%v", r.LinkIndex, gw, r.Type, r.Scope, r.Protocol, r.Flags&unix.RTNH_F_ONLINK != 0)
+	if len(r.MultiPath) > 0 {
+		out += " mp="
+		for _, h := range r.MultiPath {
+			out += fmt.Sprintf("%d/%s,", h.LinkIndex, ip.FromNetIP(h.Gw))
+		}
+	}
+	return out
 }
 
 func (s *c17State) ifaceNameOf(idx int) string {
@@ -498,7 +554,7 @@ func (s *c17State) owned() map[string]string {
 		if name == "" {
 			continue
 		}
-		if name == InterfaceNone {
+		if name == InterfaceNone && len(r.MultiPath) == 0 {
 			switch r.Type {
 			case unix.RTN_LOCAL, unix.RTN_THROW, unix.RTN_BLACKHOLE, unix.RTN_PROHIBIT, unix.RTN_UNREACHABLE:
 			default:
@@ -705,9 +761,26 @@ func (s *c17State) notify(name string) {
 }
 
 // purge: the kernel drops every route through an interface that goes down or away
-func (s *c17State) purge(idx int) {
+func (s *c17State) purge(idx int, unregistered bool) {
 	for k, r := range s.dp.RouteKeyToRoute {
-		if r.LinkIndex == idx {
+		gone := r.LinkIndex == idx
+		// multi-path: a deleted next-hop device kills the route; a device that merely goes down only
+		// kills it when no other next hop is left alive (fib_sync_down_dev)
+		alive := 0
+		for _, h := range r.MultiPath {
+			if h.LinkIndex == idx && unregistered {
+				gone = true
+			}
+			if n := s.ifaceNameOf(h.LinkIndex); h.LinkIndex != idx && n != "" && s.operUp(n) {
+				alive++
+			}
+		}
+		if len(r.MultiPath) > 0 && alive == 0 {
+			for _, h := range r.MultiPath {
+				gone = gone || h.LinkIndex == idx
+			}
+		}
+		if gone {
 			delete(s.dp.RouteKeyToRoute, k)
 			delete(s.foreign, k)
 		}
@@ -774,6 +847,13 @@ func c17Apply(s *c17State, e c17Ev) {
 			s.sendSet("V", "vxlan.calico")
 			s.wantSet("B", InterfaceNone)[s.Y()] = true
 			s.sendSet("B", InterfaceNone)
+			if strings.Contains(e.Init, "+mp") {
+				// (kept out of the other starting states: once a RouteTable has seen a multi-path
+				// target every interface-up event forces a FULL resync, which would hide the
+				// per-interface rescan path)
+				s.wantSet("M", InterfaceNone)[s.W("M1")] = true
+				s.sendSet("M", InterfaceNone)
+			}
 		}
 		s.routeDrift = false // the first Apply of a new RouteTable is a full resync anyway
 		if strings.Contains(e.Init, "synced") {
@@ -801,7 +881,7 @@ func c17Apply(s *c17State, e c17Ev) {
 		case "down":
 			if l != nil {
 				s.dp.SetIface(e.Iface, false, false)
-				s.purge(l.LinkAttrs.Index)
+				s.purge(l.LinkAttrs.Index, false)
 			}
 		case "up":
 			if l != nil {
@@ -809,7 +889,7 @@ func c17Apply(s *c17State, e c17Ev) {
 			}
 		case "del":
 			if l != nil {
-				s.purge(l.LinkAttrs.Index)
+				s.purge(l.LinkAttrs.Index, true)
 				s.dp.DelIface(e.Iface)
 			}
 		case "add": // (re)created with a fresh ifindex
@@ -908,7 +988,7 @@ func c17Points(calls []string, routeKeys [][]string, after map[string]int) []c17
 func c17Enabled(s *c17State, depth int) []c17Ev {
 	if depth == 0 {
 		return []c17Ev{{Op: "init", Init: "bare"}, {Op: "init", Init: "ifaces+foreign"}, {Op: "init", Init: "ifaces+foreign+stale"},
-			{Op: "init", Init: "ifaces+foreign+want"}, {Op: "init", Init: "ifaces+foreign+want+synced"}, {Op: "init", Init: "ifaces+foreign+stale+want+synced"}}
+			{Op: "init", Init: "ifaces+foreign+want"}, {Op: "init", Init: "ifaces+foreign+want+synced"}, {Op: "init", Init: "ifaces+foreign+stale+want+synced"}, {Op: "init", Init: "ifaces+foreign+want+mp+synced"}}
 	}
 	var evs []c17Ev
 	add := func(e c17Ev) { evs = append(evs, e) }
@@ -923,6 +1003,9 @@ func c17Enabled(s *c17State, depth int) []c17Ev {
 	add(c17Ev{Op: "rem", Class: "V", Iface: "vxlan.calico", CIDRs: []string{s.Y()}})
 	add(c17Ev{Op: "set", Class: "B", Iface: InterfaceNone, CIDRs: []string{s.Y()}})
 	add(c17Ev{Op: "set", Class: "B", Iface: InterfaceNone})
+	add(c17Ev{Op: "set", Class: "M", Iface: InterfaceNone, CIDRs: []string{s.W("M1")}})
+	add(c17Ev{Op: "set", Class: "M", Iface: InterfaceNone, CIDRs: []string{s.W("M2")}})
+	add(c17Ev{Op: "set", Class: "M", Iface: InterfaceNone})
 	for _, ifc := range []string{"cali1", "cali2", "vxlan.calico"} {
 		l := s.link(ifc)
 		var ops []string
@@ -1091,7 +1174,7 @@ func TestVerif_C17(t *testing.T) {
 	logrus.SetLevel(logrus.PanicLevel)
 	logrus.SetOutput(c17Discard{})
 	vk.Run(t, "C17", func(c *vk.Ctx) {
-		c.Rule("states = (mocknetlink kernel: interfaces with index/oper state + main routing table, routes other software owns, desired routes per class/interface, RouteTable's internal view: inputs, conflict-resolution result, delta tracker desired/dataplane, interface maps, rescan set, resync flag, grace info, netlink connection state) over 3 CIDRs (two of them claimed by two route classes each; explored for an IPv4 and for an IPv6 RouteTable, the latter with default-metric routes (normalised to 1024) and one explicit metric), classes LocalWorkload (cali1, cali2), VXLANTunnel (vxlan.calico), BlackholeVXLAN (no interface), 6 starting kernels (bare / interfaces+foreign routes / +leftover Felix routes / with a desired state, not yet or already applied); " +
+		c.Rule("states = (mocknetlink kernel: interfaces with index/oper state + main routing table, routes other software owns, desired routes per class/interface, RouteTable's internal view: inputs, conflict-resolution result, delta tracker desired/dataplane, interface maps, rescan set, resync flag, grace info, netlink connection state) over 3 CIDRs (two of them claimed by two route classes each; explored for an IPv4 and for an IPv6 RouteTable, the latter with default-metric routes (normalised to 1024) and one explicit metric), classes LocalWorkload (cali1, cali2), VXLANTunnel (vxlan.calico), BlackholeVXLAN (no interface), plus one multi-path route (2 next hops over cali1/cali2, two variants differing only in one hop's interface), 7 starting kernels (bare / interfaces+foreign routes / +leftover Felix routes / with a desired state, not yet or already applied); " +
 			"transitions = one API call, an interface going down/up/away/re-created with a new index in the kernel (with or without the monitor telling Felix), the late notification, a route edit by other software (6 kinds), QueueResync, restart, or Apply with at most N injected netlink failures (fault points = every netlink call of that Apply x its failure modes, from a dry run; for every route dump additionally: the dump is flagged interrupted (EINTR) and, before Felix retries it, another actor deletes one of the routes just reported — each in turn — or adds a route); " +
 			"every state is followed by fault-free probe Applies without and with resync; non-trivial = Apply that wrote routes or hit a fault")
 		c.Assume("the kernel behaves like felix/netlinkshim/mocknetlink, extended in the harness with: RouteReplace through a missing/down interface is refused (ENODEV/ENETDOWN); routes of an interface that goes down or is deleted are dropped by the kernel")
